@@ -79,6 +79,7 @@ func weightsFor(profile string) map[string]int {
 		base["stake"] = 14
 		base["block"] = 30
 	case "C18":
+		base["holders_split"] = 5
 		base["oracle_round"] = 12
 		base["oracle_claim"] = 10
 		base["stake"] = 4
@@ -173,6 +174,14 @@ func (g *Gen) net() string {
 	}
 }
 
+// netGas: like net(), and in some fault runs a transaction gas limit that is hit somewhere inside the execution.
+func (g *Gen) netGas() string {
+	if g.FaultP > 0 && g.R.Intn(12) == 0 {
+		return "gas" + strconv.Itoa([]int{30000, 45000, 60000, 80000, 110000, 150000, 250000}[g.R.Intn(7)])
+	}
+	return g.net()
+}
+
 func (g *Gen) chain() string { return Chains[g.R.Intn(len(Chains))] }
 
 func (g *Gen) token() TokenCfg { return g.W.Cfg.Tokens[g.R.Intn(len(g.W.Cfg.Tokens))] }
@@ -260,7 +269,7 @@ func (g *Gen) Step() {
 		u := g.R.Intn(len(w.Users))
 		funds := bigOf(w.Cfg.UserFunds)
 		max := new(big.Int).Quo(funds, big.NewInt(20))
-		in := Intent{T: "user_send", U: u, Chain: t.Chain, Denom: t.Denom, Amt: g.amount(max), Fee: g.fee(), Net: g.net()}
+		in := Intent{T: "user_send", U: u, Chain: t.Chain, Denom: t.Denom, Amt: g.amount(max), Fee: g.fee(), Net: g.netGas()}
 		if g.R.Intn(3) == 0 {
 			in.Dest = "u" + strconv.Itoa(g.R.Intn(len(w.Users)))
 		}
@@ -295,7 +304,7 @@ func (g *Gen) Step() {
 		}
 		g.emit(in)
 	case "user_cancel":
-		in := Intent{T: "user_cancel", U: g.R.Intn(len(w.Users)), Chain: g.chain(), Pick: g.R.Intn(8), Net: g.net(), Op: "own"}
+		in := Intent{T: "user_cancel", U: g.R.Intn(len(w.Users)), Chain: g.chain(), Pick: g.R.Intn(8), Net: g.netGas(), Op: "own"}
 		switch g.R.Intn(8) {
 		case 0:
 			in.Op = "" // somebody else's transfer
@@ -311,7 +320,7 @@ func (g *Gen) Step() {
 		g.emit(in)
 	case "req_batch":
 		t := g.token()
-		in := Intent{T: "req_batch", U: g.R.Intn(len(w.Users)), Chain: t.Chain, Denom: t.Denom, Net: g.net()}
+		in := Intent{T: "req_batch", U: g.R.Intn(len(w.Users)), Chain: t.Chain, Denom: t.Denom, Net: g.netGas()}
 		if g.R.Intn(15) == 0 {
 			in.Denom = "nosuch"
 		}
@@ -422,6 +431,8 @@ func (g *Gen) Step() {
 		w.St.Probe("holders-only-round")
 	case "oracle_round":
 		g.oracleRound()
+	case "holders_split":
+		g.holdersSplit()
 	case "oracle_claim":
 		g.oracleClaim(g.R.Intn(len(w.Vals)))
 	case "byz_claim":
@@ -1048,6 +1059,58 @@ func (g *Gen) holderVals() []string {
 }
 
 // oracleRound: every validator reports (mostly the same) prices/holders within one epoch.
+// holdersSplit: everybody reports prices and a holder list; the validators are split into two camps whose lists
+// differ, the first camp holding EXACTLY two thirds of the current power when the stakes allow it (otherwise the
+// closest split): "more than two thirds" must not be met by two thirds.
+func (g *Gen) holdersSplit() {
+	w := g.W
+	st := w.ReadState()
+	var pw []int64
+	var tot int64
+	for _, v := range w.Vals {
+		p := st.LastValidatorPower(v.Oper.ValAddr())
+		pw = append(pw, p)
+		tot += p
+	}
+	if tot == 0 || len(pw) < 2 || len(pw) > 12 {
+		return
+	}
+	best, bestD := 0, int64(-1)
+	for m := 1; m < 1<<uint(len(pw)); m++ {
+		var sum int64
+		for i := range pw {
+			if m>>uint(i)&1 == 1 {
+				sum += pw[i]
+			}
+		}
+		d := sum*3 - tot*2
+		if d < 0 {
+			d = -d
+		}
+		if bestD < 0 || d < bestD {
+			best, bestD = m, d
+		}
+	}
+	if bestD == 0 {
+		w.St.Probe("holders-exactly-two-thirds-split")
+	}
+	// align to the start of an epoch so that every claim lands in the same one
+	for (w.N().Height+1)%5 != 1 {
+		g.emit(Intent{T: "block", Dt: 5, N: 1})
+	}
+	prices := g.priceVals()
+	a, b := g.holderVals(), g.holderVals()
+	for i := range w.Vals {
+		g.emit(Intent{T: "oracle_claim", V: i, Op: "price", Vals: prices})
+		h := b
+		if best>>uint(i)&1 == 1 {
+			h = a
+		}
+		g.emit(Intent{T: "oracle_claim", V: i, Op: "holders", Vals: h})
+	}
+	g.emit(Intent{T: "block", Dt: 5, N: 6})
+}
+
 func (g *Gen) oracleRound() {
 	base := g.priceVals()
 	hv := g.holderVals()
@@ -1180,6 +1243,14 @@ func (g *Gen) sizeBurst() {
 			f = x.Add(x, big.NewInt(int64(g.R.Intn(3)))).String() // low 128 bits nearly zero: below every ordinary fee if truncated
 		}
 		g.emit(Intent{T: "user_send", U: u, Chain: t.Chain, Denom: t.Denom, Amt: "1000", Fee: f, Net: "seq" + strconv.Itoa(i/len(w.Users))})
+	}
+	if g.R.Intn(3) == 0 {
+		// in the same block: a batch request whose gas runs out somewhere inside its scan of the pool, then more writes
+		g.emit(Intent{T: "req_batch", U: g.R.Intn(len(w.Users)), Chain: t.Chain, Denom: t.Denom, Net: "gas" + strconv.Itoa([]int{30000, 45000, 60000, 80000, 110000, 150000}[g.R.Intn(6)])})
+		for k := 1 + g.R.Intn(3); k > 0; k-- {
+			g.emit(Intent{T: "user_send", U: g.R.Intn(len(w.Users)), Chain: t.Chain, Denom: t.Denom, Amt: "1000", Fee: fee})
+		}
+		w.St.Probe("size_burst_with_out_of_gas_request")
 	}
 	if len(w.Vals) >= 2 && g.R.Intn(2) == 0 {
 		// in the same block, after the large write set: key registrations that are rejected half way through their
